@@ -30,9 +30,11 @@ def fld_tcp(name, x):
 def fld_http(name, x):
     if x is None:
         return []
+    # `Anonymous` (no User-Agent at all) is a property of the message, not of the matcher: it belongs to the raw part
+    anon = str(x["diagnosis"]).lower() == "anonymous"
     if name == "req":
-        return [{"raw": dg({"sig": x["sig"], "src": x["src"], "dst": x["dst"], "lang": x["lang"]}), "lab": dg({"b": x["browser"], "d": x["diagnosis"]}), "q": str(x["q"])}]
-    return [{"raw": dg({"sig": x["sig"], "src": x["src"], "dst": x["dst"]}), "lab": dg({"s": x["server"], "d": x["diagnosis"]}), "q": str(x["q"])}]
+        return [{"raw": dg({"sig": x["sig"], "src": x["src"], "dst": x["dst"], "lang": x["lang"], "anonymous": anon}), "lab": dg({"b": x["browser"], "d": x["diagnosis"]}), "q": str(x["q"])}]
+    return [{"raw": dg({"sig": x["sig"], "src": x["src"], "dst": x["dst"], "anonymous": anon}), "lab": dg({"s": x["server"], "d": x["diagnosis"]}), "q": str(x["q"])}]
 
 
 def mask_lab(cfg, rec):
@@ -59,6 +61,11 @@ def partly_rejected_connections():
         out.append(c10.frame(srv, cli, 80, cp, 500, 101, 0x12, ipid=9101 + 10 * k))
         out.append(c10.frame(cli, srv, cp, 80, 101, 501, 0x18, R, ipid=9102 + 10 * k))
         out.append(c10.frame(srv, cli, 80, cp, 501, 101 + len(R), 0x18, S, ipid=9103 + 10 * k))
+    # a request without any User-Agent (diagnosis `Anonymous` with or without a matcher), and a response to it
+    cli = (10, 8, 3, 1)
+    Rn = b"GET /anon HTTP/1.1\r\nHost: anon.example\r\nAccept: */*\r\n\r\n"
+    out += [c10.frame(cli, srv, 42200, 80, 100, 0, 0x02, ipid=9300), c10.frame(srv, cli, 80, 42200, 500, 101, 0x12, ipid=9301),
+            c10.frame(cli, srv, 42200, 80, 101, 501, 0x18, Rn, ipid=9302), c10.frame(srv, cli, 80, 42200, 501, 101 + len(Rn), 0x18, b"HTTP/1.0 200 OK\r\n\r\nx", ipid=9303)]
     for k, variant in enumerate(("mf", "noflags", "synrst_data", "finrst_data")):     # first half of the head in a packet one analyzer refuses
         cli = (10, 8, 2, 1 + k)
         cp = 42100 + k
